@@ -816,7 +816,7 @@ func (e *exprEnv) call(n *ast.CallExpr) (cval, error) {
 			if err != nil {
 				return cval{}, err
 			}
-			return cval{term: fmt.Sprintf("(! %s :pattern (%s))", pv.term, tv.term), typ: boolT}, nil
+			return cval{term: fmt.Sprintf("(! %s :pattern (%s) :qid e9_expr_819)", pv.term, tv.term), typ: boolT}, nil
 		case "ntrace":
 			return cval{term: e.st.ntrace, typ: intT}, nil
 		case "emitted":
@@ -866,7 +866,7 @@ func (e *exprEnv) call(n *ast.CallExpr) (cval, error) {
 				for _, x := range except {
 					hyp = and(hyp, fmt.Sprintf("(not (= %s %s))", qv, x))
 				}
-				cs = append(cs, fmt.Sprintf("(forall ((%s Int)) (! (=> %s (= (select %s %s) (select %s %s))) :pattern ((select %s %s))))", qv, hyp, cur, qv, old, qv, cur, qv))
+				cs = append(cs, fmt.Sprintf("(forall ((%s Int)) (! (=> %s (= (select %s %s) (select %s %s))) :pattern ((select %s %s)) :qid e10_expr_869))", qv, hyp, cur, qv, old, qv, cur, qv))
 			}
 			return cval{term: and(cs...), typ: boolT}, nil
 		case "allocated":
@@ -977,6 +977,14 @@ func (e *exprEnv) call(n *ast.CallExpr) (cval, error) {
 			}
 			top := e.f
 			recs := top.callLog[id.Name]
+			if name == "called" && len(n.Args) == 1 && len(recs) > 1 {
+				// called(F) without a call-site ordinal: at any of its call sites
+				var cs []string
+				for _, r := range recs {
+					cs = append(cs, r.cond)
+				}
+				return cval{term: "(or " + strings.Join(cs, " ") + ")", typ: boolT}, nil
+			}
 			if ord >= len(recs) {
 				// the call has not been reached on any path so far (or does not exist): never called
 				if name == "called" {
@@ -1684,7 +1692,7 @@ func (e *exprEnv) exposeOuter(body ast.Expr, bound string, term string) string {
 		seen[v.term] = true
 		sortS := B.sortOf(v.typ)
 		fn := B.declFun("expose:"+sortS, []string{sortS}, "Bool")
-		B.rawDecl("exposeax:"+sortS, fmt.Sprintf("(assert (forall ((x %s)) (! (%s x) :pattern ((%s x)))))", sortS, fn, fn))
+		B.rawDecl("exposeax:"+sortS, fmt.Sprintf("(assert (forall ((x %s)) (! (%s x) :pattern ((%s x)) :qid e11_expr_1695)))", sortS, fn, fn))
 		lits = append(lits, fmt.Sprintf("(%s %s)", fn, v.term))
 		return false
 	})
@@ -1733,7 +1741,7 @@ var qidCounter int
 type forallParts struct {
 	binders string // "(x S) (y T)"
 	body    string
-	pats    []string // each a (possibly multi-) pattern: the text between ":pattern (" and ")"
+	pats    []string // each a (possibly multi-) pattern: the text between ":pattern (" and ") :qid e12_expr_1744"
 }
 
 // universal quantifiers built by mkForall, by their text (directly nested ones are merged into one binder list)
@@ -1855,7 +1863,7 @@ func (e *exprEnv) versionAxiom(v cval) {
 		return
 	}
 	B.declared[key] = true
-	B.assert(fmt.Sprintf("(forall %s (! %s :pattern (%s)))", vars, f, sel))
+	B.assert(fmt.Sprintf("(forall %s (! %s :pattern (%s) :qid e15_expr_1866))", vars, f, sel))
 }
 
 // quantBody makes the heap well-formedness facts of the loads inside a quantified body antecedents of it.
